@@ -131,6 +131,9 @@ def check_fold(chk, rule, where, kf, what, *, kind, term=None, sense=None, init_
             i = ext.init if kind in ("ARGSET", "ARG") else kf.init
             probs.append("starts from %s, specification requires %s" % ("value at first element" if i == ("first",) else show(i) if i is not None else "nothing", init_ok.text))
         if kind == "ARGSET":
+            if getattr(kf, "key_mismatch", None):
+                probs.append("the optimum is taken over `%s` but an action is listed when its `%s` equals it: two different quantities are compared "
+                             "(the list is empty or wrong whenever they differ)" % (show(kf.key_mismatch[0]), show(kf.key_mismatch[1])))
             if label is not None and kf.label != label:
                 probs.append("lists `%s`, specification lists `%s`" % (show(kf.label), show(label)))
             if kf.ties == "inconsistent":
